@@ -50,6 +50,12 @@ func (lv LiteralValue) CompletionAtPos(ctx context.Context, pos hcl.Pos) []lang.
 		return lv.completeBoolAtPos(ctx, pos)
 	}
 
+	if pos.Byte < lv.expr.Range().Start.Byte {
+		// The position is in front of the expression
+		// (e.g. right after the equals sign)
+		return []lang.Candidate{}
+	}
+
 	editRange := lv.expr.Range()
 	if editRange.End.Line != pos.Line {
 		// account for quotes or brackets that are not closed
